@@ -1,5 +1,5 @@
 (* Properties_C10.v — a provider never speaks for names it has not verified. *)
-From QV Require Import Base Fields SrcFacts Msg SrcDecisions Cache CacheSpec Sim Prober Hostname Provider ProviderSpec ProviderProofs ProviderListener ProviderConverge ProviderGoodbye.
+From QV Require Import Base Fields SrcFacts Msg SrcDecisions Cache CacheSpec Sim Prober Hostname Provider ProviderSpec ProviderProofs ProviderListener ProviderConverge ProviderGoodbye ProviderReply ProviderNames.
 Local Open Scope Z_scope.
 
 (* In every state of the provider / hostname / prober composite reachable by ANY sequence of handler invocations
@@ -76,8 +76,9 @@ Qed.
 Print Assumptions C10_only_a_completed_probe_confirms.
 
 (* The clauses "nonzero-TTL records carry the latest confirmed instance name" and "every goodbye names records announced
-   before" follow from the listener invariant of C13 (what is announced is what is served; a goodbye empties the listener)
-   and are also enforced on every run by the extracted acceptor mon_provider (codes 10, 11, 12, 14). *)
+   before" are proved below for every history (C10_nonzero_ttl_records_carry_the_confirmed_name,
+   C10_every_goodbye_names_an_announced_record) and are also enforced on every run of the implementation by the
+   extracted acceptor mon_provider (codes 10, 11, 12, 14). *)
 
 (* the decisions of Provider::update (is there a target yet, must the name be probed, is a probe for this very name
    pending, do the records point at a previous hostname) and the entry guard of onMessageReceived are regenerated from
@@ -101,4 +102,24 @@ Print Assumptions C10_every_goodbye_names_an_announced_record.
 Example C10_goodbye_for_nothing_is_rejected : ~ gb_ok [] (snd (farewell prov_new)).
 Proof.
   intros [H _]. destruct (H eq_refl (set_ttl 0 (pv_ptr prov_new))) as (r' & [] & _); [left; reflexivity|reflexivity].
+Qed.
+
+(* The clause "every service record it sends with a nonzero TTL carries the most recently confirmed instance name", for
+   every history of the composite: G is the name handed over by the latest completed probe (conf_step); every
+   nonzero-TTL PTR / SRV / TXT record of every multicast response of every handler invocation, and of every answer to a
+   question, speaks for the instance G (rec_instance: the reading used by the acceptor, rule 11). *)
+Theorem C10_nonzero_ttl_records_carry_the_confirmed_name c L G now ev :
+  nreach c L G -> one_provider c ev ->
+  names_ok (conf_step G c ev) (snd (comp_handle now c ev)) /\
+  (forall m m', pv_exists (cp_prov c) = true -> In (ESend m') (prov_on_message (cp_prov c) m) -> carries G m').
+Proof. exact (nonzero_ttl_records_carry_the_confirmed_name c L G now ev). Qed.
+Print Assumptions C10_nonzero_ttl_records_carry_the_confirmed_name.
+
+(* carries is not trivially true: an SRV record named otherwise is rejected *)
+Example C10_foreign_name_is_rejected :
+  let srv := set_ttl 120 (set_type 33 (set_name (Some [120; 46]%N) default_record)) in
+  ~ carries (Some [121; 46]%N) (add_record srv (set_response true default_message)).
+Proof.
+  cbv zeta. intro H.
+  specialize (H _ (or_introl eq_refl) ltac:(cbn; discriminate) _ eq_refl). discriminate.
 Qed.
